@@ -247,6 +247,18 @@ def rule_geometry(ctx, F):
     ctx.gate("P3", fn, resize, [("an edit inside the node (or an insertion at its end) resizes it", [("edit.start.bytes < total_size.bytes", True), ("edit.start.bytes == total_size.bytes", True)]),
                                 ("…an edit merely touching the end resizes only if it is a pure insertion", [("edit.start.bytes < total_size.bytes", True), ("is_pure_insertion", True)]),
                                 ("…and does not start in the padding", "edit.start.bytes < padding.bytes", False)], accept_desc="resizing the node")
+    # a node is left unmarked only if the edit lies strictly beyond everything the lexer looked at for it
+    conts = sorted((b.id for b in fn.blocks.values() if b.term.get("cls") == "ContinueStmt"), key=lambda i: (fn.blocks[i].term.get("loc") or {}).get("l", 0))
+    d = [x for i in fn.ids_named("end_byte") for x in fn.defs(i) if x is not None and x.get("k") != "uninit"]
+    if conts and d and M(fn).match("total_size.bytes + lookahead_bytes", d[0]):
+        skip_blk = conts[0]
+        ctx.ok("P3", "ts_subtree_edit:end-includes-lookahead", "a node's reach is its total size plus its look-ahead bytes")
+        ctx.gate("P3", fn, [], [("a node is skipped (not marked) only if the edit starts beyond its reach, or is a no-op exactly at it",
+                                 [("edit.start.bytes > end_byte", True), ("edit.start.bytes == end_byte", True)]),
+                                ("…the `exactly at` case only for a no-op edit", [("edit.start.bytes > end_byte", True), ("is_noop", True)])],
+                 accept_desc="skipping the node", accept_edge=lambda bid, e, B=skip_blk: e.to == B)
+    else:
+        ctx.bad("P3", "ts_subtree_edit:end-includes-lookahead", "ts_subtree_edit no longer computes a node's reach as total_size.bytes + lookahead_bytes before deciding to skip it")
     first = [pt for pt, n in find(fn, "edit.new_end = edit.start")]
     later = [pt for pt, n in find(fn, "child_edit.old_end = child_edit.start")] + [pt for pt, n in find(fn, "child_edit.new_end = child_edit.start")]
     ctx.floor("rewrites of the edit for later children", len(first) + len(later), 3)
